@@ -211,6 +211,7 @@ def explore_chunk(target, work, limit, carve_names, tier, cross_check=True):
         it = Interp(ctx, globs, externs=externs, pure=target.pure, loop_specs=target.loop_specs(ctx, st),
                     drop=target.drop, set_iter=target.set_iter, qualname=target.qualname)
         ctx.interp = it
+        it.local_overrides = dict(target.local_overrides(ctx, st))
         for iname, (ifile, iqual) in getattr(target, 'inline', {}).items():
             from .interp import Closure, Env
             from . import extract as _ex
